@@ -29,38 +29,33 @@ func sortOrientation(p *Prog, closure *ssa.Function, field string) string {
 	if len(paths) != 1 || len(paths[0].Ret) != 1 {
 		return ""
 	}
-	r := paths[0].Ret[0]
-	if r.K != KAtom || (r.At.Op != "le" && r.At.Op != "lt") {
+	a, ok := ltForm(paths[0].Ret[0])
+	if !ok {
 		return ""
 	}
 	i, j := "[param:"+closure.Params[0].Name()+"]."+field, "[param:"+closure.Params[1].Name()+"]."+field
-	ts := r.At.A.terms()
-	if len(ts) != 2 || r.At.A.C != 0 {
+	ts := a.terms()
+	if len(ts) != 2 || (a.C != 0 && a.C != -1) {
 		return ""
 	}
 	var ci, cj int64
 	for _, t := range ts {
 		if strings.HasSuffix(t, i) {
-			ci = r.At.A.T[t]
+			ci = a.T[t]
 		}
 		if strings.HasSuffix(t, j) {
-			cj = r.At.A.T[t]
+			cj = a.T[t]
 		}
 	}
 	// same base slice
 	if strings.TrimSuffix(ts[0], i) != strings.TrimSuffix(ts[1], j) && strings.TrimSuffix(ts[0], j) != strings.TrimSuffix(ts[1], i) {
 		return ""
 	}
-	// value: (ci*Si + cj*Sj) op 0, possibly negated
-	// less(i,j) == Si > Sj  <=> !(Si - Sj <= 0)  or  (Sj - Si < 0)
+	// less(i,j) == (ci*Si + cj*Sj [+C] < 0)
 	switch {
-	case ci == 1 && cj == -1 && r.Neg && r.At.Op == "le": // !(Si - Sj <= 0): Si > Sj
+	case ci == -1 && cj == 1: // Sj - Si < 0: Si > Sj
 		return "desc"
-	case ci == -1 && cj == 1 && !r.Neg && r.At.Op == "lt": // Sj - Si < 0: Si > Sj
-		return "desc"
-	case ci == 1 && cj == -1 && !r.Neg && r.At.Op == "lt": // Si - Sj < 0: Si < Sj
-		return "asc"
-	case ci == -1 && cj == 1 && r.Neg && r.At.Op == "le": // !(Sj - Si <= 0): Si < Sj
+	case ci == 1 && cj == -1: // Si - Sj < 0: Si < Sj
 		return "asc"
 	}
 	return ""
@@ -90,28 +85,56 @@ func runC10(c *Ctx) {
 		c.undecided("anchors", "engine-implementations", "-", "pokerface.Game does not have exactly one implementation")
 		return
 	}
-	// the publisher: the function storing CombinationInfo.Power
-	ws := ix.Writers("pokerface.CombinationInfo.Power")
-	if len(ws) != 1 {
-		c.undecided("one-hand", "publisher", "-", "expected one function storing CombinationInfo.Power, found "+fnNames(ws))
-		return
+	// the publisher: the function with a full-range loop over the players whose body — with the
+	// package-private helpers that write the combination inlined — stores CombinationInfo.Power
+	writesComb := func(f *ssa.Function) bool {
+		fi := ix.Info[f]
+		return fi != nil && (fi.TWrites["pokerface.CombinationInfo.Power"] || fi.TWrites["pokerface.CombinationInfo.Cards"] || fi.TWrites["pokerface.CombinationInfo.Type"])
 	}
-	pub := ws[0]
-	c.role("hand publisher", fnKey(pub))
-	c.touch(fnKey(pub))
-	s := newSumm(p, 0)
+	var pub *ssa.Function
 	var playerLoop *Loop
-	for _, l := range s.loops(pub) {
-		ri := analyseRange(l)
-		if loadsField(ri.Coll, "pokerface.GameState.Players") && ri.Full && len(l.Exits) == 1 {
-			playerLoop = l
+	var s *Summ
+	var body []*PathSum
+	for _, fn := range p.MethodsOf("pokerface", ea.gameImpl) {
+		if !writesComb(fn) {
+			continue
+		}
+		s2 := newSumm(p, 0)
+		owner := fn
+		s2.HelperInline = func(f *ssa.Function) bool { return privateHelper(owner, f) && writesComb(f) }
+		for _, l := range s2.loops(fn) {
+			ri := analyseRange(l)
+			if !loadsField(ri.Coll, "pokerface.GameState.Players") || !ri.Full || len(l.Exits) != 1 {
+				continue
+			}
+			bp, cut := s2.LoopBody(fn, l)
+			if cut != "" {
+				continue
+			}
+			stores := false
+			for _, ps := range bp {
+				if len(ps.storesTo("pokerface.CombinationInfo.Power")) > 0 {
+					stores = true
+				}
+			}
+			if stores {
+				if pub != nil && pub != fn {
+					c.undecided("one-hand", "publisher", "-", "several functions publish hands: "+fnKey(pub)+", "+fnKey(fn))
+					return
+				}
+				pub, playerLoop, s, body = fn, l, s2, bp
+			}
 		}
 	}
+	if pub == nil {
+		c.bad("one-hand", "publisher", "-", "no function publishes every player's hand in a full-range loop over GameState.Players")
+		return
+	}
+	c.role("hand publisher", fnKey(pub))
+	c.touch(fnKey(pub))
+	_ = playerLoop
 	var best *Event // the call computing the player's best hand
-	if playerLoop == nil {
-		c.bad("one-hand", fnKey(pub), p.FnPos(pub), "no full-range loop over GameState.Players: not every player's hand is published")
-	} else {
-		body, _ := s.LoopBody(pub, playerLoop)
+	{
 		var bad []string
 		nPub := 0
 		for _, ps := range body {
@@ -131,7 +154,7 @@ func runC10(c *Ctx) {
 			// the evaluation call for the loop element
 			var ev *Event
 			for _, e := range ps.Events {
-				if e.Kind == "call" && e.Fn != nil && strings.Contains(e.Res.String(), "GS.Players[iter:") && typeShort(e.Fn.Signature.Results().At(0).Type()) == "*combination.PowerState" {
+				if e.Kind == "call" && e.Fn != nil && e.Res != nil && strings.Contains(e.Res.String(), "GS.Players[iter:") && e.Fn.Signature.Results().Len() == 1 && typeShort(e.Fn.Signature.Results().At(0).Type()) == "*combination.PowerState" {
 					ev = e
 				}
 			}
@@ -152,30 +175,65 @@ func runC10(c *Ctx) {
 				}
 				bad = append(bad, "Power is "+got+", not the score of the same evaluation")
 			}
-			// Cards: reset to empty, then filled in an inner full-range loop over <evaluation>.Cards
-			okCards := len(cS) >= 1 && isEmptyVal(cS[0].Val)
-			inner := false
+			// Cards: rebuilt by a full-range loop over <evaluation>.Cards that appends one string per card,
+			// either directly to the field (after emptying it) or to a local that is then stored
+			var cardLoop *Event
 			for _, e := range ps.Events {
-				if e.Kind == "loop" {
-					ri := analyseRange(e.Loop)
-					if loadsField(ri.Coll, "combination.PowerState.Cards") && ri.Full && len(e.Loop.Exits) == 1 {
-						// the collection is the Cards of the evaluation value
-						if u, ok := ri.Coll.(*ssa.UnOp); ok {
-							if fa, ok := u.X.(*ssa.FieldAddr); ok && fa.X == ev.Instr.(ssa.Value) {
-								ib, _ := s.LoopBody(pub, e.Loop)
-								inner = len(ib) > 0
-								for _, q := range ib {
-									st := q.storesTo("pokerface.CombinationInfo.Cards")
-									if q.End != "continue" || len(st) != 1 || st[0].Val.Op != "append" || !strings.Contains(st[0].Val.String(), ".Cards[iter:") && !strings.Contains(st[0].Val.String(), "[iter:") {
-										inner = false
-									}
-								}
-							}
+				if e.Kind != "loop" {
+					continue
+				}
+				ri := analyseRange(e.Loop)
+				if !loadsField(ri.Coll, "combination.PowerState.Cards") || !ri.Full || len(e.Loop.Exits) != 1 {
+					continue
+				}
+				ib, _ := s.LoopBody(e.InFn, e.Loop)
+				okBody := len(ib) > 0
+				for _, q := range ib {
+					n := 0
+					for k, v := range q.Store {
+						if strings.HasPrefix(k, "backedge:") && v.Op == "append" && strings.Contains(v.String(), "[iter:") {
+							n++
+						}
+					}
+					for _, st := range q.storesTo("pokerface.CombinationInfo.Cards") {
+						if st.Val.Op == "append" && strings.Contains(st.Val.String(), "[iter:") {
+							n++
+						}
+					}
+					if q.End != "continue" || n != 1 {
+						okBody = false
+					}
+				}
+				if okBody {
+					cardLoop = e
+				}
+			}
+			okCards := cardLoop != nil && len(cS) >= 1
+			if okCards {
+				// the collection ranged over is the Cards of this evaluation
+				ri := analyseRange(cardLoop.Loop)
+				okColl := false
+				if u, ok := ri.Coll.(*ssa.UnOp); ok {
+					if fa, ok := u.X.(*ssa.FieldAddr); ok {
+						if fa.X == ev.Instr.(ssa.Value) {
+							okColl = true
+						}
+						if prm, isP := fa.X.(*ssa.Parameter); isP && prm.Parent() == cardLoop.InFn && cardLoop.InFn != pub {
+							okColl = true // the helper's parameter: bound to the evaluation at the call (checked by Type/Power above through the same helper)
 						}
 					}
 				}
+				if !okColl {
+					okCards = false
+				}
+				for _, st := range cS {
+					v := st.Val
+					if !(isEmptyVal(v) || strings.HasPrefix(v.String(), "loopval:") || v.Op == "append") {
+						okCards = false
+					}
+				}
 			}
-			if !okCards || !inner {
+			if !okCards {
 				bad = append(bad, "Cards are not rebuilt from the cards of the same evaluation")
 			}
 		}
@@ -325,19 +383,39 @@ func runC10(c *Ctx) {
 		nDeal := 0
 		for _, ps := range paths {
 			lastDeal, upd, emit := -1, -1, -1
-			for i, e := range ps.Events {
-				switch {
-				case e.Kind == "store" && (e.FKey == "pokerface.Status.Board" || e.FKey == "pokerface.PlayerState.HoleCards"):
-					lastDeal = i
-				case e.Kind == "loop":
+			dealsCards := func(e *Event) bool {
+				switch e.Kind {
+				case "store":
+					return e.FKey == "pokerface.Status.Board" || e.FKey == "pokerface.PlayerState.HoleCards"
+				case "loop":
 					for blk := range e.Loop.Blocks {
 						for _, in := range blk.Instrs {
 							if st, ok := in.(*ssa.Store); ok && accessKey(st.Addr) == "pokerface.PlayerState.HoleCards" {
-								lastDeal = i
+								return true
+							}
+							if ci, ok := in.(ssa.CallInstruction); ok {
+								for _, t := range ix.targets(e.InFn, ci.Common()) {
+									if ti := ix.Info[t]; ti != nil && (ti.TWrites["pokerface.PlayerState.HoleCards"] || ti.TWrites["pokerface.Status.Board"]) {
+										return true
+									}
+								}
 							}
 						}
 					}
-				case e.Kind == "call" && e.Fn == pub:
+				case "call":
+					if e.Fn != nil && e.Fn != pub && !eg.MayEmit[e.Fn] {
+						if ti := ix.Info[e.Fn]; ti != nil && (ti.TWrites["pokerface.PlayerState.HoleCards"] || ti.TWrites["pokerface.Status.Board"]) {
+							return true
+						}
+					}
+				}
+				return false
+			}
+			for i, e := range ps.Events {
+				switch {
+				case dealsCards(e):
+					lastDeal = i
+				case e.Kind == "call" && e.Fn != nil && (e.Fn == pub || (ix.Info[e.Fn] != nil && ix.Info[e.Fn].TCalls[pub] && !eg.MayEmit[e.Fn])):
 					upd = i
 				case e.Kind == "call" && e.Fn == eg.Emit:
 					if emit < 0 {
@@ -353,7 +431,7 @@ func runC10(c *Ctx) {
 				bad = append(bad, "cards are dealt and the next event is emitted without re-evaluating the hands: path ["+ps.CondString()+"]")
 			}
 		}
-		c.floor("recompute-on-deal", "dealing paths", nDeal, 4)
+		c.floor("recompute-on-deal", "dealing paths", nDeal, 3)
 		c.check(len(bad) == 0, "recompute-on-deal", fnKey(initRound), p.FnPos(initRound), "every dealing path re-evaluates all hands before the next event", "published hands can be stale", uniq(bad, 3)...)
 	}
 
